@@ -91,11 +91,22 @@ func (c *Config) Token(ctx context.Context) (*TokenInfo, error) {
 }
 
 func (c *Config) calculateCacheKey() string {
+	// all parts are of variable length. Without a separator different configurations (e.g. the
+	// scopes [users admin] and [usersadmin]) would result in the same key and share the token
+	separator := []byte{0}
+
 	digest := sha256.New()
 	digest.Write(stringx.ToBytes(c.ClientID))
+	digest.Write(separator)
 	digest.Write(stringx.ToBytes(c.ClientSecret))
+	digest.Write(separator)
 	digest.Write(stringx.ToBytes(c.TokenURL))
-	digest.Write(stringx.ToBytes(strings.Join(c.Scopes, "")))
+	digest.Write(separator)
+
+	for _, scope := range c.Scopes {
+		digest.Write(stringx.ToBytes(scope))
+		digest.Write(separator)
+	}
 
 	return hex.EncodeToString(digest.Sum(nil))
 }
@@ -226,11 +237,22 @@ func (c *Config) Apply(_ context.Context, req *http.Request) error {
 }
 
 func (c *Config) Hash() []byte {
+	// all parts are of variable length. Without a separator different configurations (e.g. the
+	// scopes [users admin] and [usersadmin]) would result in the same key and share the token
+	separator := []byte{0}
+
 	digest := sha256.New()
 	digest.Write(stringx.ToBytes(c.ClientID))
+	digest.Write(separator)
 	digest.Write(stringx.ToBytes(c.ClientSecret))
+	digest.Write(separator)
 	digest.Write(stringx.ToBytes(c.TokenURL))
-	digest.Write(stringx.ToBytes(strings.Join(c.Scopes, "")))
+	digest.Write(separator)
+
+	for _, scope := range c.Scopes {
+		digest.Write(stringx.ToBytes(scope))
+		digest.Write(separator)
+	}
 
 	return digest.Sum(nil)
 }
